@@ -1,6 +1,7 @@
 SPECIFICATION Spec
 CONSTANTS
   MaxLen = 3
+  CloneLen = 3
   StimLen = 2
-INVARIANTS Recurrence GainRule Between ZeroTime Monotone SetLater DetSign
+INVARIANTS Recurrence GainRule Between ZeroTime Monotone SetLater DetSign CloneSame Independent
 CHECK_DEADLOCK FALSE
